@@ -211,6 +211,9 @@ func (not NotConditions) Build(builder Builder) {
 			} else {
 				builder.WriteString("NOT ")
 				e, wrapInParentheses := c.(Expr)
+				if ne, ok := c.(NamedExpr); ok {
+					e, wrapInParentheses = Expr{SQL: ne.SQL}, true
+				}
 				if wrapInParentheses {
 					sql := strings.ToUpper(e.SQL)
 					if wrapInParentheses = containsAndOr(sql); wrapInParentheses {
@@ -246,6 +249,9 @@ func (not NotConditions) Build(builder Builder) {
 			}
 
 			e, wrapInParentheses := c.(Expr)
+			if ne, ok := c.(NamedExpr); ok {
+				e, wrapInParentheses = Expr{SQL: ne.SQL}, true
+			}
 			if wrapInParentheses {
 				sql := strings.ToUpper(e.SQL)
 				if wrapInParentheses = containsAndOr(sql); wrapInParentheses {
